@@ -1,8 +1,9 @@
 from common import *
 import itertools
 ID = 'C20'
-TRANSLATORS = []
-COQ_TARGETS = ['Properties_C20.vo']
+TRANSLATORS = [('consts2coq.py', ['coq/Gen/Consts.v'])]
+GEN_FILES = ['coq/Gen/Consts.v']
+COQ_TARGETS = ['Properties_C20.vo', 'Proof/ConstsSx.vo']
 HARNESS_MODS = ['sx']
 RULE = ('cases: sx.parse h:input mode (0: NUL-terminated copy, sx_parse_string; 1: exact-size heap block without terminator, sx_parse_stringn; obs: status, '
         'position and the tree in preorder on success / "no-tree" on error, allocation balance from the sanitizer\'s allocator statistics) and '
